@@ -11,6 +11,7 @@ mod board;
 mod keys;
 mod table;
 mod tables;
+mod engine;
 
 fn main() {
     let args: Vec<String> = env::args().collect();
@@ -24,6 +25,7 @@ fn main() {
         "keys" => keys::run(rest),
         "table" => table::run(rest),
         "tables" => tables::run(rest),
+        "engine" => engine::run(rest),
         other => {
             eprintln!("unknown family {}", other);
             2
